@@ -48,7 +48,12 @@ def ncases(tier):
 
 def gen(rng, idx, tier, seed):
     fmt = refcamx.FORMATS[idx % len(refcamx.FORMATS)]
-    return refcamx.gen_spec(rng, fmt)
+    spec = refcamx.gen_spec(rng, fmt)
+    if fmt in ('uamiv', 'lateral_boundary') and rng.random() < 0.25 and \
+            spec['sdate'] // 1000 < 2069:
+        # whole-hour steps of more than a day
+        spec['dhour'] = int(rng.choice([30, 48, 72, 100]))
+    return spec
 
 
 def open_lib(fmt, path, spec, reader='Memmap'):
@@ -184,6 +189,14 @@ def compare_decoded(d, c, spec, who):
             if a != b:
                 problems.append('%s: header %s decoded %r, written %r'
                                 % (who, key, a, b))
+        if spec['fmt'] == 'lateral_boundary':
+            want = [refcamx.bdef_cells(ie, spec['nx'], spec['ny'])
+                    for ie in (1, 2, 3, 4)]
+            if d.get('bdef') != want:
+                problems.append('%s: boundary definition records %s; the '
+                                'layout has the index of the adjacent '
+                                'modelled cell, 0 at corners: %s'
+                                % (who, d.get('bdef'), want))
         if d.get('names') != list(spec['names']):
             problems.append('%s: species names %s, written %s'
                             % (who, d.get('names'), spec['names']))
@@ -264,9 +277,6 @@ def run(spec, res):
         # direction A again, from a file built with the public API (variables
         # created in a shuffled order, no reader-provided extras); the
         # hourly-step fallbacks of the uamiv/boundary writers are C08's
-        if spec.get('dhour', 1) != 1 and fmt in ('uamiv',
-                                                  'lateral_boundary'):
-            return
         from .c08 import build_direct
         out2 = os.path.join(d, 'out2.' + fmt)
         try:
